@@ -572,6 +572,8 @@ def run(rep, ctx):
                 pass
             elif "strtod" in render(st_):
                 pass                      # the conversion itself: value and end pointer are the case parameters
+            elif k == "BinaryOperator" and st_.get("op") == "=" and render(kids(st_)[0]).replace(" ", "") in ("*__errno_location()", "errno"):
+                pass                      # errno reset before the conversion: the value after strtod is a case parameter
             elif k == "BinaryOperator" and st_.get("op") == "=":
                 dv(st_, env)
             else:
